@@ -12,7 +12,7 @@ import (
 // receiver's precision and mode are preserved.
 
 func init() {
-	engines["C05"] = &engine{N: tierN(110000, 4000000), Setup: selfTest, Case: c05Case}
+	engines["C05"] = &engine{N: tierN(1200000, 12000000), Setup: selfTest, Case: c05Case}
 }
 
 func genSqrt(r *hx.RNG, l hx.Limits) *opCase {
@@ -170,6 +170,37 @@ func c05Case(c *hx.Ctx, r *hx.RNG, idx int64) {
 	if idx < 60 { // special operands, exhaustively: {+0,-0,+Inf} x modes x receiver shapes
 		vals := []oracle.Val{{Form: oracle.Zero}, {Form: oracle.Zero, Neg: true}, {Form: oracle.Inf}}
 		k = &opCase{op: "Sqrt", x: vals[idx%3], mode: int(idx/3) % 6, p: int64(1 + idx), class: "special"}
+	} else if idx%10 < 6 {
+		// dense: precisions 17..40 - the root spans one to three words and the first refinement of the float64 seed is
+		// the one that counts - with x = s^2 x 10^(2z) +- small, s of p+1 digits (the root lies a hair beside a number
+		// with one digit more than the receiver keeps: guard digit and sticky information decide) and x of 50..150 digits
+		k = &opCase{op: "Sqrt", mode: r.Mode()}
+		p := r.Range(17, 40)
+		ds := r.Digits(p + 1)
+		if r.Bool() {
+			ds[0] = '1'
+			if r.Bool() {
+				ds[1] = byte('0' + r.Intn(5))
+			}
+		}
+		sc := hx.CoefOf(ds)
+		z := int64(r.Range(8, 40))
+		x := new(big.Int).Mul(sc, sc)
+		x.Mul(x, oracle.Pow10(2*z))
+		d := big.NewInt(int64(r.Range(1, 99)))
+		if r.Chance(30) {
+			d.Mul(d, oracle.Pow10(int64(r.Range(0, int(z)))))
+		}
+		if r.Bool() {
+			x.Add(x, d)
+		} else {
+			x.Sub(x, d)
+		}
+		k.x = oracle.Val{Form: oracle.Finite, Coef: x, Exp: -2*z + int64(r.Range(-20, 20))}
+		k.p = int64(p)
+		k.class = "dense-near-guard-digit-square"
+		k.attrs(r)
+		k.p = int64(p)
 	} else {
 		k = genSqrt(r, l)
 	}
